@@ -81,6 +81,17 @@ func childMain() {
 			}
 		}
 		r.Millis = time.Since(t0).Milliseconds()
+		if len(prev) == 0 && (r.Out == "ok" || r.Out == "err") && r.Millis < 300 {
+			// the same bytes through readers that deliver them in chunks (no io.ByteReader)
+			func() {
+				defer func() {
+					if p := recover(); p != nil {
+						r.ReaderDiff = fmt.Sprint("panic through a chunked reader: ", p)
+					}
+				}()
+				r.ReaderDiff = cg.ReaderKindDiff(cg.Kind(hdr[0]), data, uint64(len(data))*2654435761+7)
+			}()
+		}
 		// garbage of one input must not count against the address-space cap of the next
 		var ms runtime.MemStats
 		runtime.ReadMemStats(&ms)
